@@ -282,6 +282,11 @@ def run(ctx: Ctx) -> None:
     from vlib.grammar_exec import queries as exec_queries
     from vlib.grammar_exec import SCHEMA as EXEC_SCHEMA
     cases = cases + [(x, "duckdb", EXEC_SCHEMA) for c, x, t in exec_queries(2, opt_extras=True)][::(3 if quick else 1)]
+    # the qualification shapes of C10 (shadowing, USING / NATURAL chains, stars with modifiers, nested scopes, duplicate references)
+    from checks import c10 as _c10
+    c10_items = [x for c, x, t in _c10.grammar().enumerate("q", 1, 3)]
+    c10_schema = _c10.schema_for(1)
+    cases = cases + [(x, d, c10_schema) for x in c10_items for d in ("duckdb", "bigquery")][::(2 if quick else 1)]
     # every optimizer rule on the dialect-test statements (no schema: a rule that refuses ends that statement's chain)
     dcases = [(sql, d or None, {}) for d, sql in corpus.dialect_test_sql()]
     cases = cases + dcases[::(3 if quick else 1)]
